@@ -44,11 +44,12 @@ Definition uri_system_shutdown := "wamp.close.system_shutdown".
 Definition uri_no_such_role := "wamp.error.no_such_role".
 Definition uri_authentication_failed := "wamp.error.authentication_failed".
 
-(** exits of AttachClient that send ABORT, in source order: (reason, carries a message text) *)
+(** exits of AttachClient that send ABORT: (reason, carries a message text);
+    compared as a set with the regenerated list *)
 Definition abort_exits : list (string * bool) :=
   [ (uri_protocol_violation, true);        (* first message is not HELLO *)
     (uri_no_such_realm, true);             (* empty realm *)
-    (uri_system_shutdown, false);          (* router closed *)
+    (uri_system_shutdown, false);          (* router closing, or already stopped *)
     (uri_no_such_realm, false);            (* realm missing, no template *)
     (uri_no_such_realm, false);            (* template instantiation failed *)
     (uri_no_such_role, true);              (* no client role announced *)
